@@ -24,3 +24,4 @@ fi
 cd /repo && git checkout -- . 2>/dev/null; cd /verif && for g in gen_tables py2lean g4_tables; do PYTHONPATH=/repo /venv/bin/python harness/$g.py >/dev/null 2>&1; done
 # evidence / replay files written while the change was applied do not describe the tree
 git -C /verif checkout -- evidence replays 2>/dev/null
+(cd /verif/lean && lake build Rtamt driver >/dev/null 2>&1)
